@@ -11,7 +11,8 @@
 
    MODELLED SQLAlchemy behaviour (compared with the real library by harness/c05.py, not proved about it):
    (i)  direction inference: a single-valued reference whose target table belongs to the source's own mapped hierarchy
-        and that has no remote_side ([s_selfref]) is ONETOMANY: the foreign key is written on the TARGET's row
+        and that has no remote_side ([s_selfref]; the generator emits remote_side since repo commit 22a99b9, so the list
+        read from the real mappers is empty for generated layers) is ONETOMANY: the foreign key is written on the TARGET's row
         (one column per row: the last writer wins) and read back as "the row whose column points to me";
    (ii) a relationship(secondary=...) collection is written with one association row per element, repetitions included
         (the table has no key), but LOADING it yields every referenced row once (first occurrences): the ORM uniques
